@@ -90,6 +90,30 @@ theorem stream_reaches_end (qcap : Nat) (hq : 0 < qcap) (b64 : List Nat → Opti
     stream_consumed (srcParams qcap b64) hq VaxisModel.Props.C03.send_kinds_safe qs s hwf (reach_queue_le _ s0 s h0 hr)
   exact ⟨ls, s', h1, h2, h4, h5⟩
 
+/-- **A solicited clipboard reply reaches its requester even when it is handled first.**  With the
+hand-off written as in the source (`select` with a time-out case, `send_kinds`), a reply whose
+hand-off is pending when nobody waits yet stays pending — the goroutine's step is not enabled — and
+as soon as `ClipboardPop` parks in its `select` the step hands the text over.  (Seeded change
+C03-m7 turns the hand-off into `select` + `default`; the example below is that variant.) -/
+theorem early_clipboard_reply_delivered (qcap : Nat) (b64 : List Nat → Option (List Nat)) (s : Sys) (v : List Nat) (rest : List Effect)
+    (hp : s.pend = .sendClipboard v :: rest) (hw : s.clipWaiting = false) :
+    next (srcParams qcap b64) s .step = none ∧
+    run (srcParams qcap b64) s [.clipCall, .step] =
+      some { s with pend := rest, clipWaiting := false, clipGot := s.clipGot ++ [v] } := by
+  have hk : (srcParams qcap b64).kinds.clipboard = .timeout := by
+    simp [srcParams, VaxisModel.Props.C03.send_kinds]
+  constructor
+  · simp [next, hp, stepEffect, hw, hk]
+  · simp [run, next, hp, stepEffect, hw]
+
+/-- The variant of seeded change C03-m7 (non-blocking hand-off): the reply handled before the
+requester parks is dropped by the goroutine's next step, and `ClipboardPop` then has nothing to
+receive. -/
+example : (let p : Params := { qcap := 4, kinds := { Kinds.ofGen with clipboard := .nonblocking }, b64 := fun _ => some [104, 105] }
+    match run p {} [.input (.osc [53, 50, 59, 99, 59, 97]), .step, .clipCall] with
+    | some s => s.pend.isEmpty && s.clipGot.isEmpty && s.clipWaiting
+    | none => false) = true := by decide
+
 /-- Why `0 < qcap` is needed (it is what `New()` guarantees, `queue_capacity_positive`): with a
 queue without room a blocking post is never enabled and nothing can be consumed. -/
 example : (let p := srcParams 0 (fun _ => none)
